@@ -11,7 +11,11 @@
 #include <fcppt/algorithm/index_of.hpp>
 #include <fcppt/algorithm/map_iteration.hpp>
 #include <fcppt/algorithm/map_iteration_second.hpp>
+#include <fcppt/algorithm/remove.hpp>
+#include <fcppt/algorithm/remove_if.hpp>
 #include <fcppt/algorithm/sequence_iteration.hpp>
+#include <fcppt/algorithm/unique.hpp>
+#include <fcppt/algorithm/unique_if.hpp>
 #include <fcppt/algorithm/update_action.hpp>
 #include <fcppt/container/at_optional.hpp>
 #include <fcppt/container/find_opt_mapped.hpp>
@@ -323,6 +327,98 @@ std::string op_cont(std::string const &_op, line_t const &L)
   throw bad_op{};
 }
 
+// ---------------------------------------------------------------- remove / remove_if / unique / unique_if (in-place compaction)
+
+template <typename T>
+std::string op_compact(std::string const &_op, line_t const &L)
+{
+  need(L.args.size() >= 1 && L.cat(0) == 'i');
+  auto v{mk_vec<T>(L.args[0])};
+  c05::mark(v);
+  // the answer for an element is looked up by its identity (the algorithms move elements around while they ask)
+  auto const goes{[&L](T const &e)
+                  {
+                    for (std::size_t i = 0; i < L.n(0); ++i)
+                      if (L.args[0].ids[i] == e.id)
+                        return L.par.at(i) == 0;
+                    throw bad_op{};
+                  }};
+  if (_op == "algremoveif" || _op == "alguniqueif")
+  {
+    need(L.args.size() == 1 && L.par.size() == L.n(0));
+    for (int const m : L.par)
+      need(m == 0 || m == 1);
+    g_log.clear();
+    std::string tag{"-"};
+    if (_op == "algremoveif")
+      tag = fcppt::algorithm::remove_if(
+                v,
+                [&goes](T const &e)
+                {
+                  e.read();
+                  return goes(e);
+                })
+                ? "1"
+                : "0";
+    else
+    {
+      need(L.par.empty() || L.par[0] == 1);
+      fcppt::algorithm::unique_if(
+          v,
+          [&goes](T const &a, T const &b)
+          {
+            a.read();
+            b.read();
+            return goes(b);
+          });
+    }
+    event_log const log{g_log};
+    return finish(tag, "-", {slots(v)}, log);
+  }
+  if (_op == "algunique")
+  {
+    need(L.args.size() == 1 && L.par.empty());
+    g_log.clear();
+    fcppt::algorithm::unique(v);
+    event_log const log{g_log};
+    return finish("-", "-", {slots(v)}, log);
+  }
+  if (_op == "algremove")
+  {
+    need(L.args.size() == 2 && L.cat(1) == 'c' && L.n(1) == 1 && L.par.empty());
+    if constexpr (T::copyable)
+    {
+      T const val{L.args[1].ids[0]};
+      g_log.clear();
+      bool const r{fcppt::algorithm::remove(v, val)};
+      event_log log{g_log};
+      // remove captures the value by copy; libstdc++ passes the predicate by value several times (an unspecified number of copies of
+      // the closure, each destroyed again): they count as the one captured copy
+      {
+        bool seen{false};
+        std::vector<int> lost;
+        for (int const x : log.lost)
+        {
+          if (x == val.id)
+          {
+            if (seen)
+              continue;
+            seen = true;
+          }
+          lost.push_back(x);
+        }
+        log.lost = lost;
+      }
+      slots_t sv;
+      sv.add(val);
+      return finish(r ? "1" : "0", "-", {slots(v), sv.str()}, log);
+    }
+    else
+      throw bad_op{};
+  }
+  throw bad_op{};
+}
+
 template <typename T>
 bool dispatch(std::string const &_op, line_t const &L, std::string &_out)
 {
@@ -333,6 +429,8 @@ bool dispatch(std::string const &_op, line_t const &L, std::string &_out)
   if (_op == "alggenerate" || _op == "continsert" || _op == "setunion" || _op == "setdiff" || _op == "setinter" || _op == "mapvalcopy" ||
       _op == "atopt" || _op == "maybeback" || _op == "maybefront" || _op == "findoptmapped" || _op == "indexmapget")
     return (_out = op_cont<T>(_op, L), true);
+  if (_op == "algremoveif" || _op == "alguniqueif" || _op == "algunique" || _op == "algremove")
+    return (_out = op_compact<T>(_op, L), true);
   return false;
 }
 }
